@@ -22,6 +22,7 @@ import (
 	"testing"
 
 	"github.com/go-kit/log"
+	"github.com/prometheus/common/promslog"
 	"github.com/prometheus/prometheus/model/labels"
 	"github.com/prometheus/prometheus/storage"
 	"github.com/prometheus/prometheus/tsdb"
@@ -151,7 +152,7 @@ func TestVerifC37(t *testing.T) {
 	}
 	rec.Check(t, func(rt *rapid.T) {
 		res := rapid.SampledFrom([]int64{res5m, res5m, res5m, res1h}).Draw(rt, "res")
-		xs, mode := genCounter(rt, res)
+		xs, mode := genCounter(rt, res, false)
 		msg, info := checkC37Level1(xs, res)
 		if msg != "" {
 			rt.Fatalf("C37 (level 1) violated: %s\nres=%d raw: %s", msg, res, renderSamples(xs, 400))
@@ -255,14 +256,14 @@ func TestVerifC37_Blocks(t *testing.T) {
 		raws := make([][]smpl, ns)
 		var series []storage.Series
 		for i := range raws {
-			xs, _ := genCounter(rt, res5m)
+			xs, _ := genCounter(rt, res5m, rapid.Bool().Draw(rt, "slow"))
 			if len(nonNaN(xs)) == 0 {
 				xs[0].v = 1 // a series without any value is skipped by the block writer
 			}
 			raws[i] = xs
 			series = append(series, storage.NewListSeries(labels.FromStrings("__name__", "c", "i", fmt.Sprint(i)), toTSDB(xs)))
 		}
-		bdir, err := tsdb.CreateBlock(series, dir, 0, nil)
+		bdir, err := tsdb.CreateBlock(series, dir, 0, promslog.NewNopLogger())
 		if err != nil {
 			rt.Fatalf("CreateBlock: %v", err)
 		}
